@@ -1,14 +1,16 @@
 #!/bin/bash
 export GOVC_EVIDENCE_DIR=/tmp/wt/evidence-scratch
-# seed_recheck.sh [seed dirs...]: apply each seeded change to /repo, run the check of its property, undo; record the outcome
+# seed_recheck.sh [seed dirs...]: apply each seeded change to a scratch clone of /repo's HEAD (so /repo stays free), run the
+# check of its property against the clone, undo; record the outcome in the seed's meta.json (verif_result)
 cd /verif
 DIRS="$@"; [ -z "$DIRS" ] && DIRS=$(ls -d /verif/seeded/*/)
+R=/tmp/wt/recheck
+rm -rf $R; mkdir -p /tmp/wt; git clone -q /repo $R || exit 2
 for D in $DIRS; do
   D=${D%/}; PID=$(python3 -c "import json;print(json.load(open('$D/meta.json'))['property'])")
-  git -C /repo status --short | grep -q . && { echo "/repo is dirty, refusing"; exit 2; }
-  git -C /repo apply $D/patch.diff || { echo "$D: patch does not apply"; continue; }
-  /verif/bin/govc check --property $PID > $D/check-$PID.out 2>&1; RC=$?
-  git -C /repo checkout -- .
+  git -C $R apply $D/patch.diff 2>/dev/null || { echo "$(basename $D): patch does not apply"; continue; }
+  /verif/bin/govc check --property $PID --repo $R 2>&1 | cut -c1-400 > $D/check-$PID.out; RC=${PIPESTATUS[0]}
+  git -C $R checkout -- . ; git -C $R clean -fdq
   NV=$(grep -c '^VIOLATION' $D/check-$PID.out); NF=$(grep '^VIOLATION' $D/check-$PID.out | grep -vc 'no-failing-input-found')
   python3 - "$D" "$PID" "$RC" "$NV" "$NF" <<'PY'
 import json,sys
@@ -19,3 +21,4 @@ json.dump(m,open(d+'/meta.json','w'),indent=1)
 PY
   echo "$(basename $D): exit=$RC violations=$NV with_failing_input=$NF"
 done
+rm -rf $R
